@@ -429,12 +429,23 @@ class HTTP1Connection(httputil.HTTPConnection):
                 and self._disconnect_on_finish
             ):
                 headers["Connection"] = "close"
-            # If a 1.0 client asked for keep-alive, add the header.
+            # If a 1.0 client asked for keep-alive, add the header -- but only
+            # if the connection will really be kept: HTTP/1.0 has no chunked
+            # encoding, so a response with a body and no Content-Length is
+            # delimited by closing the connection.
             if (
                 self._request_start_line.version == "HTTP/1.0"
                 and self._request_headers.get("Connection", "").lower() == "keep-alive"
             ):
-                headers["Connection"] = "Keep-Alive"
+                if not (
+                    "Content-Length" in headers
+                    or self._request_start_line.method == "HEAD"
+                    or start_line.code in (204, 304)
+                    or 100 <= start_line.code < 200
+                ):
+                    self._disconnect_on_finish = True
+                if not self._disconnect_on_finish:
+                    headers["Connection"] = "Keep-Alive"
         if self._chunking_output:
             headers["Transfer-Encoding"] = "chunked"
         if not self.is_client and (
